@@ -46,7 +46,7 @@ fn slack_ms(limit_ms: u64) -> u64 {
 // ------------------------------------------------------------------------------------------------
 
 /// `run <limit_ms|0> <script hex>` →
-/// `<outcome>|<elapsed_us>|<trace>|<probe>|<regs>,<frames>,<seqb>,<strb>,<base>`
+/// `<outcome>|<elapsed_us>|<trace>|<probe>|<regs>,<frames>,<seqb>,<strb>,<base>|<cpu_us>,<runqueue_wait_us>`
 fn worker_run(limit_ms: u64, src: &str) -> String {
     let settings = if limit_ms > 0 {
         KotoSettings::default().with_execution_limit(Duration::from_millis(limit_ms))
@@ -61,9 +61,20 @@ fn worker_run(limit_ms: u64, src: &str) -> String {
         t2.borrow_mut().push(s.join(":"));
         Ok(KValue::Null)
     });
+    let sched0 = thread_sched_ns();
     let t0 = Instant::now();
     let r = kvh::catch(|| koto.compile_and_run(src));
     let el = t0.elapsed();
+    let sched1 = thread_sched_ns();
+    // time this thread spent runnable but waiting for a CPU during the run (0 if unavailable)
+    let wait_us = match (sched0, sched1) {
+        (Some(a), Some(b)) => b.1.saturating_sub(a.1) / 1000,
+        _ => 0,
+    };
+    let cpu_us = match (sched0, sched1) {
+        (Some(a), Some(b)) => b.0.saturating_sub(a.0) / 1000,
+        _ => el.as_micros() as u64,
+    };
     let out = match r {
         Ok(Ok(v)) => format!("ok:{}", kvh::canon::value(&v)),
         Ok(Err(e)) => {
@@ -85,7 +96,7 @@ fn worker_run(limit_ms: u64, src: &str) -> String {
         Err(p) => format!("panic:{}", kvh::hex(p.as_bytes())),
     };
     format!(
-        "{}|{}|{}|{}|{},{},{},{},{}",
+        "{}|{}|{}|{}|{},{},{},{},{}|{},{}",
         out,
         el.as_micros(),
         tr,
@@ -94,8 +105,20 @@ fn worker_run(limit_ms: u64, src: &str) -> String {
         sizes.1,
         sizes.2,
         sizes.3,
-        sizes.4
+        sizes.4,
+        cpu_us,
+        wait_us
     )
+}
+
+/// (on-CPU ns, run-queue wait ns) of the calling thread from `/proc/thread-self/schedstat`
+/// (Linux scheduler statistics); None where that file does not exist.
+fn thread_sched_ns() -> Option<(u64, u64)> {
+    let s = std::fs::read_to_string("/proc/thread-self/schedstat").ok()?;
+    let mut it = s.split_whitespace();
+    let run: u64 = it.next()?.parse().ok()?;
+    let wait: u64 = it.next()?.parse().ok()?;
+    Some((run, wait))
 }
 
 /// `h4 <limit_ms> <max_calls> <work_per_call>` → `c,t,i,to,tp;…`
@@ -518,6 +541,10 @@ struct RunOut {
     trace: Vec<String>,
     probe: String,
     sizes: Vec<u64>,
+    /// on-CPU time of the worker thread during the run
+    cpu_us: u64,
+    /// time the worker thread was runnable but had no CPU during the run (machine overload)
+    wait_us: u64,
 }
 
 #[derive(Clone, Debug)]
@@ -536,7 +563,11 @@ const MAX_HANGS: usize = 6;
 
 fn parse_run(raw: &str) -> Option<RunOut> {
     let f: Vec<&str> = raw.split('|').collect();
-    if f.len() != 5 {
+    if f.len() != 6 {
+        return None;
+    }
+    let cw: Vec<u64> = f[5].split(',').filter_map(|x| x.parse().ok()).collect();
+    if cw.len() != 2 {
         return None;
     }
     Some(RunOut {
@@ -545,6 +576,8 @@ fn parse_run(raw: &str) -> Option<RunOut> {
         trace: f[2].split(',').filter(|x| !x.is_empty()).map(|x| x.to_string()).collect(),
         probe: f[3].to_string(),
         sizes: f[4].split(',').filter_map(|x| x.parse().ok()).collect(),
+        cpu_us: cw[0],
+        wait_us: cw[1],
     })
 }
 
@@ -598,7 +631,14 @@ struct CaseRes {
     retry: Option<RunRes>,
 }
 
+/// Late = wall-clock duration, minus the time the kernel reports the thread spent *waiting for a
+/// CPU* (run-queue wait: other builds share this machine, load averages of 30 on 16 cores were
+/// observed and stall a 200 ms run for a second), exceeds `n_limits · limit + slack`.
 fn too_slow(o: &RunOut, limit_ms: u64, n_limits: u64) -> bool {
+    o.elapsed_us.saturating_sub(o.wait_us) > (n_limits * limit_ms + slack_ms(limit_ms)) * 1000
+}
+
+fn wall_over(o: &RunOut, limit_ms: u64, n_limits: u64) -> bool {
     o.elapsed_us > (n_limits * limit_ms + slack_ms(limit_ms)) * 1000
 }
 
@@ -729,7 +769,7 @@ impl Ctx {
 
 fn res_json(r: &RunRes) -> Value {
     match r {
-        RunRes::Done(o) => json!({"outcome": o.outcome, "elapsed_us": o.elapsed_us, "trace": o.trace, "probe": o.probe, "sizes": o.sizes}),
+        RunRes::Done(o) => json!({"outcome": o.outcome, "elapsed_us": o.elapsed_us, "cpu_us": o.cpu_us, "runqueue_wait_us": o.wait_us, "trace": o.trace, "probe": o.probe, "sizes": o.sizes}),
         RunRes::Killed(ms) => json!({"killed_after_ms": ms}),
         RunRes::Died(s) => json!({"worker_died": s}),
         RunRes::Skipped => json!({"skipped": "sweep cut short after repeated hangs"}),
@@ -815,7 +855,9 @@ fn judge(cx: &mut Ctx, c: &Case, prediction: &str, res: &CaseRes) {
             cx.viol_d("C08:early-timeout", detail(json!({"what": "timeout error returned before the limit had elapsed (never_early)"})));
         }
         if too_slow(&o, c.limit_ms, 1) {
-            cx.viol_d("C08:late-timeout", detail(json!({"what": format!("timeout error returned later than limit + slack = {} ms (twice)", c.limit_ms + slack_ms(c.limit_ms))})));
+            cx.viol_d("C08:late-timeout", detail(json!({"what": format!("timeout error returned later than limit + slack = {} ms (twice; run-queue wait already subtracted)", c.limit_ms + slack_ms(c.limit_ms))})));
+        } else if wall_over(&o, c.limit_ms, 1) {
+            cx.rep.bump("wall_over_limit_plus_slack_explained_by_runqueue_wait(machine overload)");
         }
         let over = o.elapsed_us.saturating_sub(c.limit_ms * 1000);
         let bucket = if over < 1000 { "<1ms" } else if over < 10_000 { "<10ms" } else if over < 50_000 { "<50ms" } else { ">=50ms" };
@@ -1024,7 +1066,7 @@ fn main() {
             let mut w = Worker::spawn(&worker_args());
             let r = run_in(&mut w, limit, &script, 8 * limit + 10_000);
             println!("script:\n{}", script);
-            println!("limit_ms: {}  slack_ms: {}", limit, slack_ms(limit));
+            println!("limit_ms: {}  slack_ms: {} (late = elapsed - runqueue_wait > limit + slack)", limit, slack_ms(limit));
             if let Some(req) = d["model_request"].as_str() {
                 println!("model: {} -> {}", req, cx.drv.ask(req));
             }
@@ -1340,7 +1382,7 @@ fn main() {
     cx.rep.extra.insert("k_disagreements".into(), json!(k));
     cx.rep.extra.insert("d_failures".into(), json!(d));
     cx.rep.extra.insert("driver_requests".into(), json!(cx.drv.requests));
-    cx.rep.extra.insert("slack_rule".into(), json!("allowed = limit + max(150 ms, 1.0 × limit); a slower run is repeated once before it counts"));
+    cx.rep.extra.insert("slack_rule".into(), json!("allowed = limit + max(150 ms, 1.0 × limit), measured as wall-clock duration of compile_and_run minus the run-queue wait of the worker thread reported by /proc/thread-self/schedstat (time runnable without a CPU: machine overload); never-early is judged on the raw wall clock; a slower run is repeated once (after a 500 ms pause) before it counts"));
     cx.rep.extra.insert("wall_clock".into(), json!("measured, not proved"));
     std::process::exit(cx.rep.finish());
 }
